@@ -12,12 +12,12 @@ From BD.Sched Require Import Model Replay.
 Inductive event2 :=
 | E2Start (i : nat) (t : Z) | E2End (i : nat) (ok : bool) (t : Z) | E2Refused (i : nat) (t : Z)
 | E2Kill (i : nat) (t : Z) | E2SigCall (t : Z) | E2SigRet (t : Z)
-| E2HStart (h : handler) (t : Z) | E2HEnd (h : handler) (ok : bool) (t : Z) | E2HRefused (h : handler) (t : Z).
+| E2HStart (h : handler) (t : Z) | E2HEnd (h : handler) (ok : bool) (t : Z).
 
 Definition ev2_time (e : event2) : Z :=
   match e with
   | E2Start _ t | E2End _ _ t | E2Refused _ t | E2Kill _ t | E2SigCall t | E2SigRet t
-  | E2HStart _ t | E2HEnd _ _ t | E2HRefused _ t => t end.
+  | E2HStart _ t | E2HEnd _ _ t => t end.
 
 Definition all_handlers : list handler := [HExit; HSuccess; HFailure; HCancel].
 
@@ -65,7 +65,11 @@ Definition state_eqb (a b : state) : bool :=
   forallb (fun i => node_eqb (nd a i) (nd b i)) (seq 0 n)
   && Bool.eqb (canceled a) (canceled b) && Bool.eqb (lasterr a) (lasterr b) && Bool.eqb (timedout a) (timedout b)
   && pc_eqb (pc a) (pc b) && nats_eqb (sigq a) (sigq b) && (sigleft a =? sigleft b)
-  && forallb (fun h => hnode_eqb (hst a h) (hst b h)) all_handlers.
+  && forallb (fun h => hnode_eqb (hst a h) (hst b h)) all_handlers
+  && match decided a, decided b with
+     | None, None => true
+     | Some x, Some y => ocode x =? ocode y
+     | _, _ => false end.
 
 (* acceptor state: the set of model states, the exit stamp of the latest attempt of each node, Signal calls seen *)
 Record pstate := { pss : list state; pendt : nat -> Z; pcalls : nat }.
@@ -133,7 +137,6 @@ Definition feed2 (p : pstate) (e : event2) : option pstate :=
         mk (filter (fun s => (sigs c - sigleft s =? pcalls p) && match sigq s with [] => true | _ => false end) ss)
     | E2HStart h _ => mk (apply_all (HStart h) ss)
     | E2HEnd h ok _ => mk (apply_all (HEnd h ok) ss)
-    | E2HRefused h _ => mk (apply_all (HRefused h) ss)
     end
   end.
 
